@@ -127,15 +127,19 @@ func (w *world) concretise(m valkit.Msg) *valkit.Concrete {
 func (w *world) violate(sig, desc, beh string, stepNo int, r repro) {
 	w.mu.Lock()
 	defer w.mu.Unlock()
-	w.res.Violate(sig, desc, beh, stepNo)
+	w.res.Counters["sig:"+sig]++
+	if w.res.Counters["sig:"+sig] <= 5 { // a frequent signature must not crowd out a rare one
+		w.res.Violate(sig, desc, beh, stepNo)
+	}
 	k := sig + "|" + r.Kind + "|" + r.Decoder
 	if r.Probe != nil {
 		k += key(r.Probe.M)
 	}
-	if w.seen[k] || len(w.repros) >= 60 {
+	if w.seen[k] || w.res.Counters["repro:"+sig] >= 4 {
 		return
 	}
 	w.seen[k] = true
+	w.res.Counters["repro:"+sig]++
 	r.Signature, r.N, r.Fork = sig, w.n, w.fork
 	w.repros = append(w.repros, r)
 }
@@ -242,9 +246,9 @@ type event struct {
 	E string `json:"e"`           // R reset | V validate | M mark | B back
 	I int    `json:"i,omitempty"` // alphabet index (1-based, as in TLA+)
 	T int    `json:"t,omitempty"` // time index (1-based)
-	V string `json:"v,omitempty"`
-	R string `json:"r,omitempty"`
-	G string `json:"g,omitempty"`
+	V string `json:"v"`
+	R string `json:"r"`
+	G string `json:"g"`
 }
 
 type pfx struct{ steps []int } // pairs (mi, ti) flattened
@@ -831,6 +835,23 @@ func (w *world) reproduce(path string) {
 	}
 }
 
+// probe: which named deviations does the tree under test have?  (partial-signature slot window, slot overflow guard)
+func (w *world) probe() {
+	t := valkit.TimePoint{S: 0, O: 3}
+	base := valkit.Msg{Raw: "msg", Val: "active", Dom: "ok", Topic: "ok", Env: "none", Body: "ok", Sg: []int{1}, Root: 1, Js: "none", Sf: "ok", Pm: "ok"}
+	ps := base
+	ps.St, ps.H = "psig", 40
+	pr := base
+	pr.St, pr.Mt, pr.H, pr.R = "cons", 1, valkit.Slot62, 1
+	out := map[string]any{}
+	for name, m := range map[string]valkit.Msg{"partial_far_future": ps, "prepare_slot_2_62": pr} {
+		c := w.concretise(m)
+		o := w.env.NewPeer(w.realFork()).ValidatePubsub(c.Topic, c.Data, t.Slot(), t.Offset(), true)
+		out[name] = map[string]string{"class": o.Class, "rule": o.Rule}
+	}
+	w.res.Samples = append(w.res.Samples, out)
+}
+
 func main() {
 	mode := flag.String("mode", "replay", "replay | sweep | bytes | concurrent | repro")
 	in := flag.String("in", "", "behaviours NDJSON (replay) / repro JSON (repro)")
@@ -901,6 +922,8 @@ func main() {
 		w.concurrent(al, *rounds, *seed, *trace)
 	case "repro":
 		w.reproduce(*in)
+	case "probe":
+		w.probe()
 	default:
 		fatal(fmt.Errorf("unknown mode %s", *mode))
 	}
